@@ -191,20 +191,35 @@ func checkC11(c *Case, r *Rec) error {
 		}
 		explained := false
 		for _, ir := range inRels {
-			for _, cand := range stripForcedRel(rel) {
-				if cand == ir {
-					explained = true
+			// the output rel holds every token of this input rel (as written) plus, at most once each,
+			// the required tokens; how the value is spaced is the sanitiser's business
+			extra := map[string]int{}
+			for _, f := range htmlFields(rel) {
+				extra[f]++
+			}
+			ok := true
+			for _, f := range htmlFields(ir) {
+				extra[f]--
+				if extra[f] < 0 {
+					ok = false
 				}
 			}
-			if explained {
-				for _, req := range []string{"nofollow", "noreferrer", "noopener"} {
-					cin, cout := countExact(ir, req), countExact(rel, req)
-					if cout > cin+1 || (hasTok(ir, req) && cout > cin) {
-						return violation(out, "C11: required token %s duplicated: input rel %q became %q", req, ir, rel)
-					}
+			for f, n := range extra {
+				if n > 0 && !(n == 1 && (f == "nofollow" || f == "noreferrer" || f == "noopener")) {
+					ok = false
 				}
-				break
 			}
+			if !ok {
+				continue
+			}
+			explained = true
+			for _, req := range []string{"nofollow", "noreferrer", "noopener"} {
+				cin, cout := countExact(ir, req), countExact(rel, req)
+				if cout > cin+1 || (hasTok(ir, req) && cout > cin) {
+					return violation(out, "C11: required token %s duplicated: input rel %q became %q", req, ir, rel)
+				}
+			}
+			break
 		}
 		if !explained {
 			// either no input rel survived and the value is made of forced tokens only ...
